@@ -143,11 +143,11 @@ var plans = map[string]*plan{
 	},
 	"C09": {
 		Level:          "fault_enumeration",
-		Rule:           "session histories of 1..4 connections of one client id (CleanSession toggled, will present/absent, will QoS 0..2, retain, 3 topics, payload 17/200/3000 bytes or empty, fresh unique id each time) crossed with endings {DISCONNECT, abrupt close, keep-alive expiry in virtual time, reserved packet type, SUBSCRIBE with bad flags, injected read error (chaos conn at byte offsets 0..5 after CONNECT), packet larger than the ring}; a witness subscribed to will/# at QoS 2 must receive the will of the CONNECT of the connection that ended exactly once for every non-DISCONNECT ending (topic, QoS, payload, retain=0 on the live forward) and nothing after DISCONNECT; retained wills are checked with fresh subscribers. distinct = (ending, clean, will present, QoS, retain, empty payload, resumed).",
-		Quick:          []batchSpec{{Test: "TestC09", N: 8, Timeout: 15 * m}},
-		Thorough:       []batchSpec{{Test: "TestC09", N: 16, Timeout: 60 * m}},
+		Rule:           "session histories of 1..4 connections of one client id (CleanSession toggled, will present/absent, will QoS 0..2, retain, 3 topics, payload 17/200/3000 bytes or empty, fresh unique id each time) crossed with endings {DISCONNECT, abrupt close, keep-alive expiry in virtual time, reserved packet type, SUBSCRIBE with bad flags, injected read error (chaos conn at byte offsets 0..5 after CONNECT), packet larger than the ring}; a witness subscribed to will/# at QoS 2 must receive the will of the CONNECT of the connection that ended exactly once for every non-DISCONNECT ending (topic, QoS, payload, retain=0 on the live forward) and nothing after DISCONNECT; retained wills are checked with fresh subscribers. Also: endings where the transport hands out the final bytes together with io.EOF; every third history under an authenticator with refused CONNECTs that name the victim's client id and carry another will; overlapping connections (the client reconnects with the same id before the broker noticed the older connection is gone: when the older one ends its own will is due, the newer one's only at its own end; 4 endings x 4 endings x CleanSession x will presence). distinct = (ending, clean, will present, QoS, retain, empty payload, resumed).",
+		Quick:          []batchSpec{{Test: "TestC09", N: 8, Timeout: 15 * m}, {Test: "TestC09Overlap", N: 4, Timeout: 15 * m}},
+		Thorough:       []batchSpec{{Test: "TestC09", N: 16, Timeout: 60 * m}, {Test: "TestC09Overlap", N: 8, Timeout: 60 * m}},
 		EvalStats:      []string{"c09.connections"},
-		Floors:         map[string]int64{"c09.histories": 1800, "c09.connections": 4000, "classes": 250},
+		Floors:         map[string]int64{"c09.histories": 1800, "c09.connections": 4000, "c09.overlap_cases": 380, "c09.refused_connects_with_victim_id": 100, "classes": 250},
 		FloorsThorough: map[string]int64{"c09.histories": 55000, "classes": 300},
 		Assumptions:    []string{"quiescence by synctest.Wait(); keep-alive expiry happens in virtual time", "server-initiated Close is executed at the end of every history but not asserted (the statement does not cover it)"},
 	},
